@@ -295,18 +295,24 @@ int main(int argc, char** argv)
 	int nk = quick ? 25 : 400;
 	for(int i = 0; i < nk; i++)
 	{
-		int n = (int)g.range(5, 400);
+		int n = g.coin(0.3) ? (int)g.range(1, 4) : (int)g.range(5, 400);	  // also samples of one to four points
 		std::vector<DataPoint> data;
 		double lo = g.uni(-5, 5), w = g.logu(0.1, 100);
 		for(int k = 0; k < n; k++)
 			data.push_back(DataPoint(lo + w * (g.coin(0.5) ? g.u01() : std::fabs(g.gauss()) * 0.2), g.coin(0.5) ? 1.0 : g.uni(0.1, 3.0)));
-		double bw = g.coin(0.5) ? 0.0 : w * g.logu(0.01, 0.5);
+		double bw = (g.coin(0.5) && n >= 5) ? 0.0 : w * g.logu(0.01, 0.5);	  // (the rule-of-thumb bandwidth needs a spread: tiny samples get an explicit one)
 		intent("Perform_KDE");
 		Interpolation kde = Perform_KDE(data, lo, lo + w, bw);
 		bool nonneg = true;
 		for(int k = 0; k <= 1500; k++)
-			nonneg = nonneg && kde(lo + w * k / 1500.0) >= 0.0;
+			nonneg = nonneg && kde(lo + w * k / 1500.0) >= -1e-300;	  // (the interpolation of underflowing tails may round to -4.9e-324)
 		double I = kde.Integrate(lo, lo + w);
+		if(getenv("VERIF_DEBUG") && (!nonneg || quant(I - 1.0, 1e-5) > 1))
+		{
+			dprintf(errfd_ref(), "DBGKDE n=%d lo=%.17g w=%.17g bw=%.17g I=%.17g nonneg=%d\n", n, lo, w, bw, I, (int)nonneg);
+			for(auto& p : data)
+				dprintf(errfd_ref(), "   %.17g %.17g\n", p.value, p.weight);
+		}
 		T.emit({{"e", "KDE"}, {"nonneg", nonneg}, {"intq", quant(I - 1.0, 1e-5)}});
 	}
 	T.flush();
